@@ -244,7 +244,7 @@ def run(ctx):
             fl = [w_ for w_ in allw if py_float(w_)]
             ml = "compile %d " % bool(delay)
             for name, (tk, content) in files.items():
-                ml += "F %s %s %s " % (hxs(name), ",".join(hxs(t) for t in tk) or "-", hxs(content) if content != "" else "-")
+                ml += "F %s %s %s " % (hxs(name), (",".join(hxs(t) for t in tk) if tk else "~"), hxs(content) if content != "" else "-")
             ml += "FL " + " ".join(hxs(x) for x in fl) + " W " + " ".join(hxs(x) for x in words)
             lines.append(ml)
             meta.append((st, ops, delay, warp, inc, rp))
